@@ -113,7 +113,10 @@ void judge_iteration(Log<T> const& log, IterInfo const& ii, std::size_t calls_ex
                 if (c.bin[k] >= ii.bins) { viol("vegas:bin-index-out-of-range", J(ii.info).u("bin", c.bin[k]).u("bins", ii.bins)); return; }
                 T l = pdf->bin_left(k, c.bin[k]), r = pdf->bin_left(k, c.bin[k] + 1);
                 T slack = T(2) * std::numeric_limits<T>::epsilon() * std::fmax(std::fabs(l), std::fabs(r));
-                if (!(x >= l - slack && x <= r + slack)) { viol("vegas:point-not-in-reported-bin", J(ii.info).f("x", x).f("left", l).f("right", r).u("bin", c.bin[k])); return; }
+                // x = left + t * (right - left) with t in [0,1): never left of the bin (exactly); one rounding error of slack on the right
+                if (!(x >= l)) { viol("vegas:point-left-of-reported-bin", J(ii.info).f("x", x).f("left", l).f("right", r).u("bin", c.bin[k])); return; }
+                if (!(x <= r + slack)) { viol("vegas:point-not-in-reported-bin", J(ii.info).f("x", x).f("left", l).f("right", r).u("bin", c.bin[k])); return; }
+                if (l == r) count("vegas_points_sampled_in_a_zero-width_bin");
             }
             else
             {
@@ -211,13 +214,25 @@ template <typename Eng> void run_with(Rng& rng, Eng eng, int kind, std::size_t d
     }
     else if (kind == 1)
     {
-        std::size_t bins = rng.range(2, 16);
-        st.ii.bins = bins;
-        info.u("bins", bins);
+        std::size_t bins = st.ii.bins;
+        // uniform grid, or a user grid in which some bins have zero width (points sampled there have weight zero and are still points)
+        hep::vegas_pdf<T> pdf(dims, bins);
+        bool user_grid = rng.below(2);
+        if (user_grid)
+            for (std::size_t d = 0; d < dims; ++d)
+            {
+                std::vector<T> x(bins + 1);
+                for (auto& v : x) v = T(rng.u01l());
+                for (std::size_t i = 1; i + 1 < x.size(); ++i) if (rng.below(3) == 0) x[i] = x[i - 1];
+                x[0] = T(0); x[bins] = T(1);
+                std::sort(x.begin(), x.end());
+                for (std::size_t b = 0; b <= bins; ++b) pdf.set_bin_left(d, b, x[b]);
+            }
+        info.u("bins", bins).b("user_grid_with_zero_width_bins", user_grid);
         st.ii.info = info;
         typedef hep::vegas_chkpt_with_rng<Eng, T> chk_t;
-        if (beh.has_dist) hep::vegas(hep::make_integrand<T>(f, dims, hep::make_dist_params<T>(4, T(0), T(1), "d")), calls, chk_t(eng, bins, T(1.5)), cb);
-        else hep::vegas(hep::make_integrand<T>(f, dims), calls, chk_t(eng, bins, T(1.5)), cb);
+        if (beh.has_dist) hep::vegas(hep::make_integrand<T>(f, dims, hep::make_dist_params<T>(4, T(0), T(1), "d")), calls, chk_t(eng, pdf, T(1.5)), cb);
+        else hep::vegas(hep::make_integrand<T>(f, dims), calls, chk_t(eng, pdf, T(1.5)), cb);
     }
     else
     {
@@ -266,7 +281,8 @@ void run_case(Rng& rng, std::uint64_t idx)
     info.s("T", tname<T>::get()).s("integrator", names[kind]).u("dims", dims).uv("calls", calls).u("zero_per_mille", beh.zero_pm).u("nonfinite_per_mille", beh.nonfinite_pm)
         .u("ask_weight_per_mille", beh.ask_pm).b("with_distribution", beh.has_dist).b("scripted_engine", scripted);
     st.ii.kind = kind;
-    st.ii.bins = 0;
+    static const std::size_t odd_bins[] = {7, 37, 50, 61, 100};
+    st.ii.bins = kind == 1 ? (rng.below(3) == 0 ? odd_bins[rng.below(5)] : rng.range(2, 16)) : 0;
     st.ii.scripted = scripted;
     st.ii.info = info;
     if (scripted)
@@ -274,12 +290,25 @@ void run_case(Rng& rng, std::uint64_t idx)
         auto script = std::make_shared<Script>();
         script->tail_seed = rng.next();
         std::size_t per_call = kind == 2 ? dims + 1 : dims;
-        std::uint64_t ext[] = {0, ~std::uint64_t(0), 1, ~std::uint64_t(0) - 1};
+        std::vector<std::uint64_t> ext = {0, ~std::uint64_t(0), 1, ~std::uint64_t(0) - 1};
+        if (kind == 1)
+        {
+            // canonical numbers next to k/bins: u * bins may round to the integer k although u < k/bins
+            for (int j = 0; j < 24; ++j)
+            {
+                std::size_t k = rng.range(1, st.ii.bins - 1);
+                T b = T(k) / T(st.ii.bins);
+                ext.push_back(raw_of((LD)std::nextafter(b, T(0))));
+                ext.push_back(raw_of((LD)b));
+                ext.push_back(raw_of((LD)k / st.ii.bins) - 1);
+            }
+            count("scripted_vegas_numbers_next_to_a_bin_edge", 72);
+        }
         std::size_t total = 0;
         for (auto c : calls) total += c;
         for (std::size_t c = 0; c < total; ++c)
             for (std::size_t k = 0; k < per_call; ++k)
-                script->raw.push_back((c % 3 == 0 && (c / 3) % per_call == k) ? ext[(c / (3 * per_call)) % 4] : rng.next());
+                script->raw.push_back((c % 3 == 0 && (c / 3) % per_call == k) ? ext[(c / (3 * per_call)) % ext.size()] : rng.next());
         ScriptEngine::current() = script;
         run_with(rng, ScriptEngine(script), kind, dims, calls, beh, st, info);
         count("scripted_runs");
